@@ -42,9 +42,14 @@ type c08State struct {
 	Key     int
 	V       int64
 	E       int64
+	OE      int64 // expiry the entry was written with (only used by the relaxed model of known finding K1)
 }
 
-func c08Step(st c08State, op c08Op) []c08State {
+// c08Step is the transcription of BackendConc.sspec. With relaxed=true the cleanup may also remove an
+// entry that was long-expired when it was written and has been re-stamped by ExpireAll since: that is
+// known finding K1 (SyncMap.deleteExpired decides on an expiry read before a concurrent ExpireAll), used
+// only to tell K1 apart from any other failure to linearize.
+func c08Step(st c08State, op c08Op, relaxed bool) []c08State {
 	unit := op.RKind == "unit"
 
 	switch op.Kind {
@@ -53,7 +58,7 @@ func c08Step(st c08State, op c08Op) []c08State {
 			return nil
 		}
 
-		return []c08State{{Present: true, Key: op.Key, V: op.V, E: op.E}}
+		return []c08State{{Present: true, Key: op.Key, V: op.V, E: op.E, OE: op.E}}
 	case "read":
 		if !st.Present || st.Key != op.Key {
 			if op.RKind == "notfound" {
@@ -103,6 +108,10 @@ func c08Step(st c08State, op c08Op) []c08State {
 			return []c08State{{}}
 		}
 
+		if relaxed && st.Present && st.OE != 0 && st.OE < op.E {
+			return []c08State{st, {}}
+		}
+
 		return []c08State{st}
 	case "evict":
 		if st.Present {
@@ -129,22 +138,43 @@ func c08Step(st c08State, op c08Op) []c08State {
 	return nil
 }
 
-var c08ND = porcupine.NondeterministicModel{
-	Init: func() []interface{} { return []interface{}{c08State{}} },
-	Step: func(state interface{}, input interface{}, output interface{}) []interface{} {
-		res := c08Step(state.(c08State), input.(c08Op))
-		out := make([]interface{}, len(res))
+func c08ModelOf(relaxed bool) porcupine.Model {
+	nd := porcupine.NondeterministicModel{
+		Init: func() []interface{} { return []interface{}{c08State{}} },
+		Step: func(state interface{}, input interface{}, output interface{}) []interface{} {
+			res := c08Step(state.(c08State), input.(c08Op), relaxed)
+			out := make([]interface{}, len(res))
 
-		for i, r := range res {
-			out[i] = r
-		}
+			for i, r := range res {
+				out[i] = r
+			}
 
-		return out
-	},
-	Equal: func(a, b interface{}) bool { return a.(c08State) == b.(c08State) },
+			return out
+		},
+		Equal: func(a, b interface{}) bool { return a.(c08State) == b.(c08State) },
+	}
+
+	return nd.ToModel()
 }
 
-var c08Model = c08ND.ToModel()
+var (
+	c08Model        = c08ModelOf(false)
+	c08ModelRelaxed = c08ModelOf(true)
+)
+
+// knownK1 reports whether a history that has no linearization is explained by known finding K1.
+func knownK1(flavour string, h []c08Op) bool {
+	if flavour != FlSyncM {
+		return false
+	}
+
+	ops := make([]porcupine.Operation, len(h))
+	for i, o := range h {
+		ops[i] = porcupine.Operation{ClientId: i, Input: o, Output: nil, Call: o.Call, Return: o.Ret}
+	}
+
+	return porcupine.CheckOperationsTimeout(c08ModelRelaxed, ops, 20*time.Second) == porcupine.Ok
+}
 
 func (o c08Op) coq(keys [][]byte) string {
 	var op, res string
@@ -669,6 +699,10 @@ func TestC08(t *testing.T) {
 					tag := fmt.Sprintf("%s/%s/%s", fl, c.strat, conf.Mix)
 					if !ok || bad != "" {
 						tag += "/REJECTED"
+
+						if bad == "" && knownK1(fl, h) {
+							tag += "/K1-stale-cleanup-decision"
+						}
 					}
 
 					cf.Add(fmt.Sprintf("(mkC08 %s %s)", Bool(ok && bad == ""), List(items)), tag,
@@ -682,6 +716,7 @@ func TestC08(t *testing.T) {
 	}
 
 	addC08Janitor(e, cf)
+	addC08StaleDecision(e, cf)
 
 	if err := cf.Write(e); err != nil {
 		t.Fatal(err)
@@ -753,5 +788,77 @@ func addC08Janitor(e *Env, cf *CaseFile) {
 			"how": "one goroutine runs VerifCleanup back to back; another writes 4 keys with ttl -2h, then for each key writes a fresh value and reads it"},
 			true)
 		cf.Count("janitor-rounds", n)
+	}
+}
+
+// addC08StaleDecision races one janitor cycle against ExpireAll followed by a Read, over one long-expired
+// entry, on the real clock. Sequentially either the cleanup comes first (the entry is gone: both reads miss)
+// or ExpireAll comes first (the entry expires "now", which is not long ago: the cleanup keeps it and both
+// reads find it). The pattern "first Read finds the entry expired just now, second Read finds nothing" has no
+// linearization: the cleanup decided on the old expiry and removed the re-stamped entry. This is known
+// finding K1 for SyncMap (known_findings.json); it must never show on the sharded backends.
+func addC08StaleDecision(e *Env, cf *CaseFile) {
+	budget := time.Duration(e.Pick(6000, 30000)) * time.Millisecond
+
+	for _, fl := range Flavours {
+		b := NewBackend(fl, cache.Config{
+			Name: "c08k", TimeToLive: time.Hour, ExpirationJitter: -1, DeleteExpiredAfter: time.Hour,
+			DeleteExpiredJobInterval: 1000000 * time.Hour, ItemsCountReportInterval: 1000000 * time.Hour,
+		})
+		ctx := context.Background()
+		old := cache.WithTTL(ctx, -2*time.Hour, false)
+		k := []byte("k")
+		hits, n := 0, 0
+		deadline := time.Now().Add(budget)
+
+		if fl != FlSyncM {
+			deadline = time.Now().Add(budget / 4)
+		}
+
+		for time.Now().Before(deadline) && hits == 0 {
+			_ = b.Write(old, k, 1)
+
+			var (
+				wg sync.WaitGroup
+				r1 Res
+			)
+
+			wg.Add(2)
+
+			go func() { defer wg.Done(); b.Cleanup() }()
+			go func() { defer wg.Done(); b.ExpireAll(ctx); r1 = b.Read(ctx, k) }()
+			wg.Wait()
+
+			r2 := b.Read(ctx, k)
+			n++
+
+			if r1.Kind == "expired" && r1.At > time.Now().Add(-time.Minute).UnixNano() && r2.Kind == "notfound" {
+				hits++
+			}
+		}
+
+		b.Close()
+
+		// symbolic times: Write(k,1) expiring at -2h [1,2]; cleanup with boundary -1h [3,8]; ExpireAll stamping 0 [4,5];
+		// Read at clock 1 [6,7]; Read [9,10]
+		kk := Key(k)
+		r1c, r2c, tag := "XNotFound", "XNotFound", "stale-decision/"+fl
+
+		if hits > 0 {
+			r1c = "XExpired 1 0"
+			tag += "/REJECTED"
+
+			if fl == FlSyncM {
+				tag += "/K1-stale-cleanup-decision"
+			}
+		}
+
+		term := fmt.Sprintf("(mkC08 %s [mkOp8 1 2 (SWrite %s 1 (-7200000000000)) XUnit; mkOp8 3 8 (SDelExp (-3600000000000)) XUnit; "+
+			"mkOp8 4 5 (SExpire 0) XUnit; mkOp8 6 7 (SRead %s 1) (%s); mkOp8 9 10 (SRead %s 1) (%s)])",
+			Bool(hits == 0), kk, kk, r1c, kk, r2c)
+		cf.Add(term, tag, map[string]any{"flavour": fl, "rounds": n, "pattern_seen": hits,
+			"how": "Write(k) with ttl -2h; then concurrently VerifCleanup() and { ExpireAll(); r1 = Read(k) }; then r2 = Read(k); " +
+				"pattern = r1 expired just now and r2 not found"}, true)
+		cf.Count("stale-decision-rounds/"+fl, n)
 	}
 }
